@@ -11,7 +11,7 @@ from fparser.two.utils import walk, Base
 from fparser.two import C99Preprocessor as CPP
 
 # (kind, text builder from a 3-char symbolic identifier `x`, expected printed form)
-KINDS = ["if", "ifdef", "ifndef", "elif", "else", "endif", "include", "define", "define_fn", "undef", "line", "marker", "error", "warning", "null", "cont", "cont3", "else_trail", "endif_trail", "error_str", "define_str"]
+KINDS = ["if", "ifdef", "ifndef", "elif", "else", "endif", "include", "define", "define_fn", "undef", "line", "marker", "error", "warning", "null", "cont", "cont3", "else_trail", "endif_trail", "error_str", "define_str", "include_bare", "include_sys"]
 # kinds whose payload is free text: symbolic printable characters (quotes, ';', '/', '*' ... included)
 TEXT_KINDS = ("else_trail", "endif_trail", "error_str", "define_str")
 
@@ -31,6 +31,10 @@ def directive(kind, x):
         return "#endif", "#endif"
     if kind == "include":
         return '#include "' + x + '.h"', '#include "' + x + '.h"'
+    if kind == "include_bare":
+        return '#include "' + x + '"', '#include "' + x + '"'
+    if kind == "include_sys":
+        return "#include <" + x + ">", "#include <" + x + ">"
     if kind == "define":
         return "#define " + x + " 42", "#define " + x + " 42"
     if kind == "define_fn":
@@ -83,7 +87,18 @@ def units(tier):
             if rot % 3 == 0:
                 second = [(at * 5 + 2) % (n + 1), KINDS[(rot // 3) % len(KINDS)]]
             us.append(dict(h="cpp_prog", prog=p, at=at, kind=kind, second=second, std="f2008" if (f08 or rot % 2) else "f2003", ic=bool(rot % 4), cost=2))
+            # the same with a shorter identifier and a comment / blank line right after the directive
+            ls = _lines(p)
+            shared = 0 < at < n and _shared_do(ls[at - 1], ls[at])
+            if (rot % 3 == 1 or at in (0, n)) and not shared:
+                us.append(dict(h="cpp_prog", prog=p, at=at, kind=KINDS[(rot // 2) % len(KINDS)], second=None, std="f2008" if f08 else "f2003", ic=bool(rot % 2),
+                               xlen=1 + rot % 2, follow=("comment", "blank", "trail")[rot % 3], cost=2))
     return us
+
+
+def _shared_do(x, y):
+    a, b = x.strip().split(" "), y.strip().split(" ")
+    return a[0] == "do" and b[0] == "do" and len(a) > 1 and len(b) > 1 and a[1] == b[1] and a[1][:1].isdigit()
 
 
 def meta(tier):
@@ -136,6 +151,13 @@ def cpp_prog(ctx):
     p = ctx.p
     C.reset()
     lines = _lines(p["prog"])
+    follow = p.get("follow")
+    if follow == "comment":
+        lines = lines[:p["at"]] + ["  ! note"] + lines[p["at"]:]
+    elif follow == "blank":
+        lines = lines[:p["at"]] + ["", "  ! note"] + lines[p["at"]:]
+    elif follow == "trail" and p["at"] > 0:
+        lines[p["at"] - 1] = lines[p["at"] - 1] + " ! note"
     canon = "\n".join(lines) + "\n"
     if p["kind"] in TEXT_KINDS:
         x = ctx.chars("x", 2, "print")
@@ -144,7 +166,7 @@ def cpp_prog(ctx):
         tagsemi = " [';' in a directive]" if (";" in x and p["kind"] in ("else_trail", "endif_trail")) else ""
         G.require(ctx, api.conj([ch != '"' for ch in x]))
     else:
-        x = G.fresh_name(ctx, "x", 3)
+        x = G.fresh_name(ctx, "x", p.get("xlen", 3))
         tagsemi = ""
     ins = [(p["at"], p["kind"], x)]
     if p["second"] is not None:
@@ -170,8 +192,7 @@ def cpp_prog(ctx):
     tag = ""
     for at, kind, ident in ins:
         if 0 < at < len(lines):
-            a, b = lines[at - 1].strip().split(" "), lines[at].strip().split(" ")
-            if a[0] == "do" and b[0] == "do" and len(a) > 1 and len(b) > 1 and a[1] == b[1] and a[1][:1].isdigit():
+            if _shared_do(lines[at - 1], lines[at]):
                 tag = " [directive between the DO statements of a shared-label DO nest]"
     tag += tagsemi
     ctx.check(r1[0] == "ok", "program with preprocessor directives rejected (" + r1[0] + ")" + tag)
@@ -193,10 +214,18 @@ def cpp_prog(ctx):
             if e[2] is not None:
                 got = str(n).rstrip(" ")
                 want = e[2].rstrip(" ")
+                if e[0] == "include_sys":
+                    # '#include <h>' is printed as '#include "h"' (pinned by the repository's tests): recorded finding
+                    alt = want.replace("<", '"').replace(">", '"')
+                    if ctx.holds((got == alt) if len(got) == len(alt) else False):
+                        ctx.check(False, "directive content changed (include_sys) [angle-bracket include printed with double quotes]")
+                        continue
                 ctx.check((got == want) if len(got) == len(want) else False, "directive content or order changed (%s)" % e[0] + tagsemi)
     outl = [l.strip(" ") for l in s1.split("\n")]
     for e in expect:
         if e[2] is not None:
             want = e[2].strip(" ")
+            if e[0] == "include_sys":
+                want = want.replace("<", '"').replace(">", '"')     # see the recorded finding above
             hits = [k for k, l in enumerate(outl) if len(l) == len(want) and l == want]
             ctx.check(len(hits) >= 1, "directive missing from the regenerated text (%s)" % e[0] + tagsemi)
